@@ -115,8 +115,10 @@ func (g *gen) genStruct(depth int) *Struct {
 			switch {
 			case k == KDur || k == KPDur:
 				f.Bound = []string{"min=8s", "max=30s", "nonzero", "positive", "min=7.5", "max=1m"}[t.Choose(6, "bound")]
-			case k == KStr || k == KPStr:
+			case k == KStr || k == KPStr || k == KVStr:
 				f.Bound = "nonzero"
+			case k == KF32:
+				f.Bound = []string{"min=8", "max=50", "nonzero", "positive", "max=0.1", "min=0.7"}[t.Choose(6, "bound")]
 			default:
 				f.Bound = []string{"min=8", "max=50", "nonzero", "positive"}[t.Choose(4, "bound")]
 			}
@@ -266,7 +268,7 @@ func (sc *StructCase) refs(out map[string]interface{}) {
 func (fc *FieldCase) rawInput() interface{} {
 	n := fc.N
 	switch fc.F.Kind {
-	case KInt, KInt8, KUint16, KPInt, KVInt, KUInt, KPI, KUUint, KUVal:
+	case KInt, KInt8, KUint16, KPInt, KVInt, KUInt, KPI, KUUint, KUVal, KUPrim:
 		return uint64(10 + n%80)
 	case KURe:
 		return map[string]interface{}{"p": uint64(10 + n%80), "q": "s" + itoa(n)}
@@ -282,6 +284,12 @@ func (fc *FieldCase) rawInput() interface{} {
 	case KMSVInt:
 		return map[string]interface{}{"p": []interface{}{uint64(10 + n%80)}, "q": []interface{}{uint64(11 + n%80)}}
 	case KF64, KUFloat, KF32:
+		switch fc.F.Bound {
+		case "max=0.1":
+			return float64(0.1) // (the bound itself: not representable in a float32, which is no reason to reject it)
+		case "min=0.7":
+			return float64(0.7)
+		}
 		return float64(n) + 0.5
 	case KStr, KPStr, KVStr, KUStr, KPUStr:
 		return "s" + itoa(n)
@@ -379,7 +387,7 @@ func (fc *FieldCase) rawInput() interface{} {
 // boundable: kinds whose fields may carry a built-in validator with a value-level meaning.
 func boundable(k Kind) bool {
 	switch k {
-	case KInt, KInt8, KUint16, KF64, KF32, KStr, KDur, KPInt, KPStr, KVInt, KPI, KPDur, KU64:
+	case KInt, KInt8, KUint16, KF64, KF32, KStr, KDur, KPInt, KPStr, KVInt, KPI, KPDur, KU64, KVStr, KUPrim:
 		return true
 	}
 	return false
@@ -469,7 +477,9 @@ func (sc *StructCase) prefill(v reflect.Value) {
 		case KVInt:
 			f.SetInt(num)
 		case KVStr:
-			f.SetString("old")
+			f.SetString(str)
+		case KUPrim:
+			f.SetInt(num)
 		case KUStr:
 			f.Set(reflect.ValueOf(UStr{S: "old"}))
 		case KPUStr:
@@ -706,6 +716,8 @@ func (sc *StructCase) apply(v reflect.Value, present bool) {
 			f.SetFloat(in.(float64))
 		case KStr, KVStr:
 			f.SetString(in.(string))
+		case KUPrim:
+			f.SetInt(int64(in.(uint64)))
 		case KBool:
 			f.SetBool(in.(bool))
 		case KDur:
